@@ -343,6 +343,7 @@ func genChain(o hreg.Opts, p chainPlan, mutants bool) (out seqOut) {
 		slots *= 3 // valid blocks are cheap (no mutant volume): longer chains for c01
 	}
 	oddKey := 2000
+	dhSeen := map[string]int{}
 	for i := 0; i < slots; i++ {
 		if rng.Intn(8) == 0 {
 			oddKey += 2
@@ -434,7 +435,7 @@ func genChain(o hreg.Opts, p chainPlan, mutants bool) (out seqOut) {
 			out.lines = append(out.lines, fmt.Sprintf("blk mode=post tag=%s fv=%x %s", tagOf(tag), fv[:], flatblock.Dump(spec, tb, orc)))
 			// the execution-payload step on its own (same pre-state, same block): for the block itself and for every
 			// variant that concerns the payload or the blob commitments
-			if sb.Body().Payload != nil && (strings.HasPrefix(tag, "valid:") || strings.HasPrefix(tag, "payload.extra_data") || strings.HasPrefix(tag, "blob_kzg_commitments")) {
+			if sb.Body().Payload != nil && (strings.HasPrefix(tag, "valid:") || strings.HasPrefix(tag, "payload.extra_data") || strings.HasPrefix(tag, "blob_kzg_commitments") || strings.HasPrefix(tag, "pre-state:default-exec-header")) {
 				out.lines = append(out.lines, fmt.Sprintf("blk mode=payload tag=%s fv=%x %s", tagOf(tag+":payload-step-alone"), fv[:], flatblock.Dump(spec, tb, orc)))
 				stat("payload_step_alone", strings.SplitN(tag, ":", 2)[0])
 			}
@@ -547,6 +548,15 @@ func genChain(o hreg.Opts, p chainPlan, mutants bool) (out seqOut) {
 			for _, v := range validEdits(c, step) {
 				v.st = fs
 				bvs = append(bvs, v)
+			}
+			// default execution header: on the first two payload blocks of every fork of the chain, and then every 4th slot
+			if dh := defaultHeaderVariants(c, step, fs); len(dh) > 0 && (dhSeen[fork] < 2 || uint64(step.Slot)%4 == 0) {
+				dhSeen[fork]++
+				for _, v := range dh {
+					if mutants || v.rule == "valid" {
+						bvs = append(bvs, v)
+					}
+				}
 			}
 			if mutants {
 				bvs = append(bvs, exitAgeVariants(c, spec, step, fs)...)
